@@ -67,6 +67,18 @@ def known_for_engine(prop, famname, known):
     return out
 
 
+def _doubles_exact(inputs):
+    from fractions import Fraction
+    for i in inputs:
+        if len(i) >= 4 and i[1] == 'f':
+            try:
+                if Fraction(i[3]) != Fraction(float(i[2])):
+                    return False
+            except Exception:
+                return False
+    return True
+
+
 class Check:
     def __init__(s, prop, level='model_checking'):
         s.prop = prop
@@ -161,7 +173,7 @@ class Check:
             s.parts.append(part)
             s.problems.append('%s: engine error %s\n%s' % (f.name, r['error'], r.get('trace', '')))
             return
-        part.update({k: r[k] for k in ('paths', 'pruned', 'ninconclusive', 'instr', 'queries', 'solver_s', 'forks', 'branches',
+        part.update({k: r.get(k) for k in ('paths', 'pruned', 'cut_by_bound', 'feasibility_undecided', 'ninconclusive', 'instr', 'queries', 'solver_s', 'forks', 'branches',
                                        'wall_s', 'aborted', 'ends', 'covers')})
         part['violations'] = len(r['viol'])
         s.parts.append(part)
@@ -174,7 +186,7 @@ class Check:
             s.problems.append('%s: exploration stopped early (%s): bound not covered' % (f.name, r['aborted']))
         if r['ninconclusive']:
             s.problems.append('%s: %d inconclusive path(s), e.g. %s' % (f.name, r['ninconclusive'], r['inconclusive'][0]))
-        if r['paths'] == 0 and not r['viol'] and not f.witness:
+        if r['paths'] == 0 and not r.get('feasibility_undecided') and not r['viol'] and not f.witness:
             s.problems.append('%s: no path completed (vacuous)' % f.name)
         # --- violations: dedupe by (label/kind/msg), replay natively
         seen = {}
@@ -202,6 +214,8 @@ class Check:
                 break
             if pth['nviol'] or pth['end'] not in ('return', 'end'):
                 continue
+            if not _doubles_exact(pth['inputs']):
+                continue         # the model's real inputs are not doubles: the native run would see rounded values
             if binary is None:
                 binary = s._native(f)
             out = e1.replay(binary, f.entry, pth['inputs'])
